@@ -74,7 +74,9 @@ def run(ctx, sources, label, model_ok=True, project=proj_full, path="t.sd", fuel
         else:
             agree.append((s, a))
     if reconfirm and agree:
-        k = max(1, len(agree) // 100)
+        # the batch hook mirrors `run` / `main` of src/main.rs; what those two do to a script (reading the file, exit status,
+        # what goes to which stream) is only seen through the command line: a few hundred per stream, at ~2 ms each
+        k = min(len(agree), max(200, len(agree) // 50))
         pick = ctx.rng.sample(agree, min(k, len(agree)))
         res = core.cli_batch([s for s, _ in pick], path=path)
         ctx.cov["cli_reconfirmed"] += len(pick)
